@@ -232,6 +232,7 @@ class RepeatedValueWrapper(MutableSequence[_V], Generic[_M, _V]):
             raise ValueError(
                 f'attempt to assign sequence of size {len(values)} to extended slice of size '
                 f'{len(raw_indexes_to_update)}')
+        properties.check_distinct(value for value in values if isinstance(value, base.RawModel))
         for value in values:
             if isinstance(value, base.RawModel):
                 value.check_detachable()  # refuse before replacing anything
